@@ -1,7 +1,7 @@
 SPECIFICATION Spec
 CONSTANTS
   Fuel = 60000
-  Fams = {"bigarr", "bigstruct", "arr3", "zerolen", "viewview", "iterptr", "looplocal", "wordcopy", "deepblocks", "longexpr", "permlit"}
+  Fams = {"bigarr", "bigstruct", "arr3", "zerolen", "viewview", "iterptr", "looplocal", "wordcopy", "deepblocks", "longexpr", "permlit", "textprint"}
   BigTypes = {"i32"}
   Big = TRUE
 INVARIANTS Sane EmitCase
